@@ -193,6 +193,26 @@ def gen_flex():
         # elasticity / bending are outside the proved part (DESIGN C40 "not covered"); their
         # translation failure is reported but does not break the proof obligations
         tr.optional_errors[k] = tr.errors.pop(f"kernel:{k}")
+  # flex-vs-plane broadphase (collision_flex.py): the AABB kernel and the plane cull (a @cache_kernel
+  # factory; warn_overflow only adds a printf).  Plain translator, no search loop in these.
+  import mujoco_warp._src.collision_flex as CF
+
+  for name, kern, coqname in (
+    ("_flex_broadphase_bounds", CF._flex_broadphase_bounds, "k__flex_broadphase_bounds"),
+    ("_flex_broadphase_plane", CF._flex_broadphase_plane(False), "k__flex_broadphase_plane"),
+  ):
+    try:
+      fi = tr.want_kernel(kern, coqname)
+    except Exception as e:  # translator crash = fail closed
+      tr.errors[f"kernel:{name}"] = f"CRASH {type(e).__name__}: {e}"
+      fi = None
+    if fi is not None:
+      tr.kernels[name] = fi
+    else:
+      # want_kernel records the error under the factory kernel's key; make it findable by name
+      for k in list(tr.errors):
+        if "broadphase" in k and k != f"kernel:{name}":
+          tr.errors[f"kernel:{name}"] = tr.errors.pop(k)
   tr.emit(os.path.join(vlib.COQ, "Gen", "T_flex.v"))
   _cache["k"] = tr
   return tr
